@@ -19,6 +19,11 @@ ROOT = os.path.dirname(os.path.dirname(os.path.abspath(__file__)))
 REPO = os.path.abspath(os.environ.get("VERIF_REPO", "/repo"))
 CACHE = os.path.join(ROOT, ".cache")
 NPROC = min(16, os.cpu_count() or 4)
+# development-time override (many checks running at once on one machine): VERIF_NPROC or the untracked file .cache/nproc
+try:
+    NPROC = max(1, int(os.environ.get("VERIF_NPROC") or open(os.path.join(CACHE, "nproc")).read().strip()))
+except (OSError, ValueError):
+    pass
 GUARD = "prqlc_verif"
 os.makedirs(CACHE, exist_ok=True)
 
